@@ -242,15 +242,28 @@ def _k_real(rng, clean=False):
     if r < 0.74:
         return 0x09, _pick(rng, REAL_RAW)
     first = 0x80 | int(rng.random() * 128)
-    if rng.random() < 0.6:
+    if rng.random() < 0.7:
         # plausible binary form: scale != 0 and base != 3 most of the time
         first = 0x80 | (int(rng.random() * 2) << 6) | (_pick(rng, (0, 1, 2, 2, 0, 3)) << 4) | \
             (_pick(rng, (1, 2, 3, 1, 2, 3, 0)) << 2) | int(rng.random() * 4)
-    body = rng.randbytes(int(rng.random() * 9))
-    if rng.random() < 0.5 and body:
-        # small exponents so that finite values appear
-        body = bytes((_pick(rng, (0, 1, 2, 0xff, 0xfe, 0x7f, 0x80, 10)),)) + body[1:]
-    return 0x09, bytes((first,)) + body
+    elen = (first & 3) + 1          # the decoder reads (first & 3) + 1 exponent octets
+    q = rng.random()
+    if q < 0.75:
+        e = _pick(rng, _REAL_EXPS) if rng.random() < 0.5 else _ri(rng, -70, 70)
+        if not -(1 << (8 * elen - 1)) <= e < (1 << (8 * elen - 1)):
+            e = _ri(rng, -128, 127)
+        eb = e.to_bytes(elen, "big", signed=True)
+        mant = _pick(rng, _REAL_MANTS) if rng.random() < 0.4 else rng.randbytes(_ri(rng, 0, 4))
+        return 0x09, bytes((first,)) + eb + mant
+    if q < 0.85:
+        return 0x09, bytes((first,)) + rng.randbytes(int(rng.random() * elen))       # too short for the exponent
+    return 0x09, bytes((first,)) + rng.randbytes(int(rng.random() * 9))
+
+
+_REAL_EXPS = (0, 1, -1, 2, 10, -10, 52, 53, -52, 127, -128, 128, -129, 255, 256, 1023, 1024, -1022, -1023, -1074, -1075,
+              -1100, 2000, 32767, -32768, 2 ** 31 - 1, -(2 ** 31))
+_REAL_MANTS = (b"", b"\x00", b"\x01", b"\x03", b"\xff", b"\x01\x00", b"\xff\xff\xff\xff", b"\x80\x00\x00\x00",
+               b"\x01\x00\x00\x00\x00", b"\x01\x00\x00\x00\x01", b"\x00\x00\x00\x00\x05", b"\x1f\xff\xff")
 
 
 def _k_exc(rng, clean=False):
@@ -505,6 +518,21 @@ def lines_ber(rng, n):
         if rng.random() < 0.25:
             d = d + rng.randbytes(_ri(rng, 1, 3))
         out.append("ber %s %s" % (ty, hx(d)))
+    return out
+
+
+def lines_real(rng, n):
+    """REAL only (`ber real` / `value`): the float paths get a stream of their own"""
+    out = []
+    for _ in range(n):
+        tag, c = _k_real(rng)
+        r = rng.random()
+        d = tlv(tag, c, _lenform(rng, len(c), 0.05))
+        if r < 0.2:
+            d = mutate(rng, d)
+        elif r < 0.3:
+            d = d + rng.randbytes(_ri(rng, 1, 3))
+        out.append(("ber real " if rng.random() < 0.5 else "value ") + hx(d))
     return out
 
 
@@ -1083,39 +1111,88 @@ def lines_encoid(rng, n):
     return out
 
 
-def _req(rng, budget=None):
-    """REQ text. budget: approximate number of content octets the OIDs should add up to (None = small)"""
+class _Req:
+    """a request PDU for the encoders: kind, the three integers, OID contents"""
+    __slots__ = ("kind", "ints", "oids")
+
+    def __init__(self, kind, ints, oids):
+        self.kind, self.ints, self.oids = kind, ints, oids
+
+    def text(self):
+        oids = self.oids
+        # a single empty OID would read as the empty list `-`: it is the empty list then
+        ol = ",".join([hx(o) for o in oids]) if oids and not (len(oids) == 1 and not oids[0]) else "-"
+        if self.kind == "getbulk":
+            return "getbulk %d %d %d %s" % (self.ints + (ol,))
+        return "%s %d %s" % (self.kind, self.ints[0], ol)
+
+    def size(self):
+        """exact encoded size of the PDU (minimal INTEGERs, lengths as push_tag_len writes them)"""
+        oids = self.oids if not (len(self.oids) == 1 and not self.oids[0]) else []
+        vbl = sum(_sz(_sz(len(o)) + 2) for o in oids)
+        ints = self.ints if self.kind == "getbulk" else (self.ints[0], 0, 0)
+        return _sz(sum(_isz(v) for v in ints) + _sz(vbl))
+
+
+def _sz(n):
+    """size of a TLV with n content octets"""
+    return n + (2 if n < 128 else 3 if n < 256 else 4)
+
+
+def _isz(v):
+    return 2 + len(ber.int_content(v))
+
+
+def _req(rng, many=False):
     r = rng.random()
-    if budget is None:
-        if r < 0.6:
-            oids = [oid_content(rng) for _ in range(_pick(rng, (0, 1, 1, 2, 3, 5)))]
-        elif r < 0.9:
-            oids = [_oid_of_len(rng, _pick(rng, _SWEEP)) for _ in range(_pick(rng, (1, 1, 2)))]
-        else:
-            oids = [_oid_of_len(rng, _pick(rng, (0, 1, 127, 128, 255, 256, 600)))]
-    else:
-        k = _pick(rng, (1, 7, 8, 20, 40, 130, 400)) if budget > 600 else 1
-        if budget // k > 600:
-            k = budget // 600 + 1
-        per = 6 if budget // k < 120 else 8        # varbind overhead: 30 L 06 L .. 05 00
-        ln = max(0, budget // k - per)
+    if many:
+        k = _pick(rng, (1, 7, 8, 20, 40, 130, 400))
+        ln = min(600, max(0, 4000 // k - (6 if 4000 // k < 120 else 8)))
         one = _oid_of_len(rng, ln)
-        oids = [one] * (k - 1) + [_oid_of_len(rng, max(0, ln + _ri(rng, -3, 3)))]
-    ol = ",".join([hx(o) for o in oids]) if oids else "-"
-    # a single empty OID would read as the empty list: keep it distinguishable
-    if len(oids) == 1 and not oids[0]:
-        ol = "-"
+        oids = [one] * k
+    elif r < 0.6:
+        oids = [oid_content(rng) for _ in range(_pick(rng, (0, 1, 1, 2, 3, 5)))]
+    elif r < 0.9:
+        oids = [_oid_of_len(rng, _pick(rng, _SWEEP)) for _ in range(_pick(rng, (1, 1, 2)))]
+    else:
+        oids = [_oid_of_len(rng, _pick(rng, (0, 1, 127, 128, 255, 256, 600)))]
     q = rng.random()
     if q < 0.4:
-        return "get %d %s" % (_i64(rng), ol)
+        return _Req("get", (_i64(rng),), oids)
     if q < 0.7:
-        return "getnext %d %s" % (_i64(rng), ol)
-    return "getbulk %d %d %d %s" % (_i64(rng), _i64(rng) if rng.random() < 0.5 else 0, _i64(rng), ol)
+        return _Req("getnext", (_i64(rng),), oids)
+    return _Req("getbulk", (_i64(rng), _i64(rng) if rng.random() < 0.5 else 0, _i64(rng)), oids)
 
 
-def _budget(rng):
-    """total sizes around the 4080-octet buffer"""
-    return _ri(rng, 3900, 4120) if rng.random() < 0.8 else _ri(rng, 600, 3900)
+_TARGET_DELTAS = (-3, -2, -1, 0, 0, 0, 1, 2, 3, 4, 5, -4, -17, 23, -130, 140)
+
+
+def _fit(rng, size_of, ln0, target):
+    """length L of the adjustable blob such that size_of(L) is as close as possible to target"""
+    ln = ln0
+    for _ in range(5):
+        d = target - size_of(ln)
+        if d == 0:
+            break
+        ln = max(0, ln + d)
+    return ln
+
+
+def _fit_req(rng, req, wrap, target):
+    """resize the last OID of req so that wrap(req.size()) hits the target total"""
+    if not req.oids:
+        req.oids = [b""]
+    last = len(req.oids) - 1
+
+    def size_of(ln):
+        req.oids[last] = b"\x2b" * ln
+        return wrap(req.size())
+    ln = _fit(rng, size_of, len(req.oids[last]), target)
+    req.oids[last] = _oid_of_len(rng, ln)
+
+
+def _target(rng):
+    return BUF_CAP + _pick(rng, _TARGET_DELTAS)
 
 
 def lines_encpdu(rng, n):
@@ -1124,57 +1201,102 @@ def lines_encpdu(rng, n):
         r = rng.random()
         if r < 0.02:
             out.append("encnull")
-        elif r < 0.80:
-            out.append("encpdu " + _req(rng))
+        elif r < 0.78:
+            out.append("encpdu " + _req(rng).text())
         elif r < 0.90:
-            out.append("encpdu " + _req(rng, _budget(rng)))
-        elif r < 0.97:
-            out.append("encscoped %s %s" % (hx(_blob(rng)), _req(rng)))
+            req = _req(rng, True)
+            _fit_req(rng, req, lambda p: p, _target(rng))
+            out.append("encpdu " + req.text())
+        elif r < 0.96:
+            out.append("encscoped %s %s" % (hx(_blob(rng)), _req(rng).text()))
         else:
-            out.append("encscoped %s %s" % (hx(_blob(rng)), _req(rng, _budget(rng))))
+            req = _req(rng, True)
+            eng = _blob(rng)
+            fixed = 2 + (_sz(len(eng)) if eng else 2)
+            _fit_req(rng, req, lambda p: _sz(fixed + p), _target(rng))
+            out.append("encscoped %s %s" % (hx(eng), req.text()))
     return out
 
 
 _BLOB_LENS = (0, 0, 0, 5, 5, 12, 32, 126, 127, 128, 129, 200, 255, 256)
 
 
-def _blob(rng, big=False):
-    ln = _pick(rng, _BLOB_LENS) if not big else _ri(rng, 3800, 4090)
+def _blob(rng, ln=None):
+    if ln is None:
+        ln = _pick(rng, _BLOB_LENS)
     if ln <= 32:
         return rng.randbytes(ln)
     return bytes((int(rng.random() * 256),)) * ln
+
+
+def _osz(b, empty_is_2=True):
+    return _sz(len(b))
 
 
 def lines_encmsg(rng, n):
     out = []
     for _ in range(n):
         r = rng.random()
-        big = rng.random() < 0.12
+        big = rng.random() < 0.14
         if r < 0.45:
             ver = "v1" if r < 0.22 else "v2c"
-            if big and rng.random() < 0.5:
-                out.append("encmsg %s %s %s" % (ver, hx(_blob(rng, True)), _req(rng)))
-            else:
-                c = _pick(rng, _COMMUNITIES) if rng.random() < 0.6 else _blob(rng)
-                out.append("encmsg %s %s %s" % (ver, hx(c), _req(rng, _budget(rng) if big else None)))
+            c = _pick(rng, _COMMUNITIES) if rng.random() < 0.6 else _blob(rng)
+            req = _req(rng, big and rng.random() < 0.5)
+            if big:
+                target = _target(rng)
+                if req.oids and len(req.oids) > 1 or rng.random() < 0.5:
+                    _fit_req(rng, req, lambda p: _sz(3 + _sz(len(c)) + p), target)
+                else:
+                    p = req.size()
+                    c = _blob(rng, _fit(rng, lambda ln: _sz(3 + _sz(ln) + p), 3900, target))
+            out.append("encmsg %s %s %s" % (ver, hx(c), req.text()))
             continue
         q = rng.random()
         auth = b"" if q < 0.4 else bytes(12) if q < 0.8 else rng.randbytes(_pick(rng, (11, 12, 24, 1)))
         q = rng.random()
         priv = b"" if q < 0.5 else rng.randbytes(8) if q < 0.9 else rng.randbytes(_pick(rng, (7, 16, 1)))
-        which = int(rng.random() * 5) if big else -1
-        eng = _blob(rng, which == 0) if rng.random() < 0.5 or which == 0 else _pick(rng, _ENGINE_IDS)
-        user = _blob(rng, which == 1) if rng.random() < 0.3 or which == 1 else _pick(rng, _USERS)
-        head = "encmsg v3 %d %d %d %d %s %d %d %s %s %s" % (
-            _i64(rng) if rng.random() < 0.5 else rng.getrandbits(31), rng.random() < 0.5, rng.random() < 0.4,
-            rng.random() < 0.3, hx(eng), _i64(rng) if rng.random() < 0.5 else rng.getrandbits(16),
-            _i64(rng) if rng.random() < 0.5 else rng.getrandbits(24), hx(user), hx(auth), hx(priv))
-        if rng.random() < 0.3:
-            ct = _blob(rng, which == 2) if rng.random() < 0.5 or which == 2 else rng.randbytes(_pick(rng, (0, 8, 16, 40)))
-            out.append("%s enc %s" % (head, hx(ct)))
+        eng = _blob(rng) if rng.random() < 0.5 else _pick(rng, _ENGINE_IDS)
+        user = _blob(rng) if rng.random() < 0.3 else _pick(rng, _USERS)
+        msg_id = _i64(rng) if rng.random() < 0.5 else rng.getrandbits(31)
+        boots = _i64(rng) if rng.random() < 0.5 else rng.getrandbits(16)
+        etime = _i64(rng) if rng.random() < 0.5 else rng.getrandbits(24)
+        encrypted = rng.random() < 0.3
+        if encrypted:
+            data = _blob(rng) if rng.random() < 0.5 else rng.randbytes(_pick(rng, (0, 8, 16, 40)))
+            ctx, req = b"", None
         else:
-            ctx = _blob(rng, which == 3) if rng.random() < 0.4 or which == 3 else _pick(rng, _ENGINE_IDS)
-            out.append("%s plain %s %s" % (head, hx(ctx), _req(rng, _budget(rng) if which == 4 else None)))
+            ctx = _blob(rng) if rng.random() < 0.4 else _pick(rng, _ENGINE_IDS)
+            req = _req(rng, big and rng.random() < 0.4)
+            data = b""
+        if big:
+            # exact size model of SnmpV3Message::push_ber; one blob is resized to land on the buffer limit
+            which = _pick(rng, ("eng", "user", "data") if encrypted else ("eng", "user", "ctx", "req", "req"))
+            hdr = _sz(_isz(msg_id) + 4 + 3 + 3)
+
+            def total(eng_l, user_l, data_sz):
+                usm = _sz(_sz(eng_l) + _isz(boots) + _isz(etime) + _sz(user_l) + _sz(len(auth)) + _sz(len(priv)))
+                return _sz(3 + hdr + _sz(usm) + data_sz)
+            target = _target(rng)
+            if which == "eng":
+                dsz = _sz(len(data)) if encrypted else _sz(_sz(len(ctx)) + 2 + req.size())
+                eng = _blob(rng, _fit(rng, lambda ln: total(ln, len(user), dsz), 3800, target))
+            elif which == "user":
+                dsz = _sz(len(data)) if encrypted else _sz(_sz(len(ctx)) + 2 + req.size())
+                user = _blob(rng, _fit(rng, lambda ln: total(len(eng), ln, dsz), 3800, target))
+            elif which == "data":
+                data = _blob(rng, _fit(rng, lambda ln: total(len(eng), len(user), _sz(ln)), 3800, target))
+            elif which == "ctx":
+                p = req.size()
+                ctx = _blob(rng, _fit(rng, lambda ln: total(len(eng), len(user), _sz(_sz(ln) + 2 + p)), 3800, target))
+            else:
+                _fit_req(rng, req, lambda p: total(len(eng), len(user), _sz(_sz(len(ctx)) + 2 + p)), target)
+        head = "encmsg v3 %d %d %d %d %s %d %d %s %s %s" % (
+            msg_id, rng.random() < 0.5, rng.random() < 0.4, rng.random() < 0.3, hx(eng), boots, etime, hx(user),
+            hx(auth), hx(priv))
+        if encrypted:
+            out.append("%s enc %s" % (head, hx(data)))
+        else:
+            out.append("%s plain %s %s" % (head, hx(ctx), req.text()))
     return out
 
 
@@ -1374,7 +1496,7 @@ def lines_normalize(rng, n):
     return out
 
 
-STREAMS = ["lines_hdr", "lines_ber", "lines_value", "lines_normalize", "lines_pdu", "lines_topy", "lines_msg",
+STREAMS = ["lines_hdr", "lines_ber", "lines_value", "lines_real", "lines_normalize", "lines_pdu", "lines_topy", "lines_msg",
            "lines_walk", "lines_encint", "lines_encoid", "lines_encpdu", "lines_encmsg", "lines_buf", "lines_oidstr",
            "lines_oidtxt", "lines_cmp"]
 
